@@ -242,6 +242,8 @@ var directedSchedules = [][]string{
 	{"store:1", "arrive:0", "get:0:honest", "upEnd:0:cacheable:60", "complete:0", "saved:0:1", "crash", "purgeRace:0", "get:1:honest", "upEnd:1:cacheable:60", "complete:1", "saved:1:1"},
 	// a purge through the admin endpoint whose store delete is slow: the operator's 204 comes after the delete, not before
 	{"store:1", "arrive:0", "get:0:honest", "upEnd:0:cacheable:60", "complete:0", "saved:0:1", "purgeAck:0", "arrive:0", "get:1:honest", "upEnd:1:cacheable:60", "complete:1", "saved:1:1"},
+	// a purge that names a cache which does not exist — through the admin endpoint and directly — leaves a resident hit alone
+	{"store:0", "arrive:0", "get:0", "upEnd:0:cacheable:60", "complete:0", "saved:0:1", "purgeOther:0:admin", "arrive:0", "get:1", "age:1", "purgeOther:0:direct", "arrive:0", "get:2", "age:2"},
 	// two requests racing through the dispatcher's get-or-create for a cold key: one entry, one fetch
 	{"store:0", "arriveRace:0", "get:0", "get:1", "park:1", "upEnd:0:cacheable:60", "complete:0", "saved:0:1", "resume:1", "age:1"},
 	// the same for a key made cold again by a purge
@@ -504,7 +506,7 @@ func runSchedule(cr *rng, seq int, script []string) (blocked bool) {
 		if script != nil {
 			sp = strings.Split(script[step], ":")
 			a = action{name: sp[0]}
-			if sp[0] != "arrive" && sp[0] != "tick" && sp[0] != "purge" && sp[0] != "purgeRace" && sp[0] != "purgeAck" && sp[0] != "arriveRace" && sp[0] != "reload" && sp[0] != "crash" {
+			if sp[0] != "arrive" && sp[0] != "tick" && sp[0] != "purge" && sp[0] != "purgeRace" && sp[0] != "purgeAck" && sp[0] != "purgeOther" && sp[0] != "arriveRace" && sp[0] != "reload" && sp[0] != "crash" {
 				ti, _ := strconv.Atoi(sp[1])
 				if ti >= len(run.threads) {
 					emit("sched", "script-error", script[step])
@@ -664,7 +666,16 @@ func runSchedule(cr *rng, seq int, script []string) (blocked bool) {
 			}
 			if sp == nil && cr.chance(12) {
 				// a purge that names a cache which does not exist touches nothing (model: no event at all)
-				run.ctl(func() { cache.RemoveHTTPCache("no-such-cache", []byte("GET s.test "+schedKeyURI(k))) })
+				// … whether it is called directly or arrives at the admin endpoint with ?cache=no-such-cache
+				if cr.chance(50) {
+					run.ctl(func() {
+						if _, err := adminPurge("no-such-cache", "GET s.test "+schedKeyURI(k)); err != nil {
+							stat("admin-unavailable")
+						}
+					})
+				} else {
+					run.ctl(func() { cache.RemoveHTTPCache("no-such-cache", []byte("GET s.test "+schedKeyURI(k))) })
+				}
 				emit("sched", "purge-other", itoa(int64(k)))
 				break
 			}
@@ -724,6 +735,18 @@ func runSchedule(cr *rng, seq int, script []string) (blocked bool) {
 				run.await(t2)
 			}
 			emit("sched", "arrive", idOf(t2), itoa(int64(t2.key)), hx(t2.method), "=>", posLine(t2), itoa(int64(run.eidx(t2.entry))))
+		case "purgeOther":
+			k, _ := strconv.Atoi(arg(1, "0"))
+			if arg(2, "admin") == "admin" {
+				run.ctl(func() {
+					if _, err := adminPurge("no-such-cache", "GET s.test "+schedKeyURI(k)); err != nil {
+						stat("admin-unavailable")
+					}
+				})
+			} else {
+				run.ctl(func() { cache.RemoveHTTPCache("no-such-cache", []byte("GET s.test "+schedKeyURI(k))) })
+			}
+			emit("sched", "purge-other", itoa(int64(k)))
 		case "purgeAck":
 			// a purge through the admin server's endpoint, held inside its store delete: as long as the delete has not
 			// been carried out the operator has no answer (an acknowledged purge is a completed purge — after the
